@@ -12,6 +12,8 @@ def main(tier):
     depth = ['--depth=2'] if quick else ['--depth=3']
     for k in KINDS:
         c.run_family('asan', 'c10', 'pairs:' + k, args=depth)
+    for k in KINDS:
+        c.run_family('asan', 'c10', 'pairs-shared:' + k, args=depth)
     c.run_family('asan', 'c10', 'cross', args=depth)
     for k in KINDS:
         # one process fills the memoised equals() matrix lazily: few large chunks
@@ -22,6 +24,7 @@ def main(tier):
         for k in KINDS:
             big = k in ('model', 'component')
             c.run_family('plain' if big else 'asan', 'c10', 'pairs2:' + k, args=['--depth=2'], chunk=400000 if big else None, per_case_timeout=0.05)
+            c.run_family('plain' if big else 'asan', 'c10', 'pairs2-shared:' + k, args=['--depth=2'], chunk=400000 if big else None, per_case_timeout=0.05)
     pools = {k.split(':', 1)[1]: v for k, v in c.counters.items() if k.startswith('pool_size:')}
     return c.finish(
         rule='a case is one ordered pair (i,j) resp. one triple (i,j,k) of pool members, index-addressed, ALL of them enumerated; pool members are distinct by '
@@ -37,5 +40,8 @@ def main(tier):
             'math is compared as text (the statement says "math"; whitespace variants are C12\'s subject)',
             'quick: depth-2 bases (two children per kind); thorough: depth-3 bases (three children, one more component level) plus every double mutation of the depth-2 '
             'bases against base and all single mutants, both directions',
+            'aliasing: pairs-shared / pairs2-shared rebuild the same pools with an alias registry - every import source, own units object of a variable and free-standing '
+            'variable of a reset is ONE instance per distinct content across the whole pool, so two members that differ only next to such a sub-object hold the very '
+            'same instance of it (own-copy construction = pairs / pairs2, shared-instance construction = *-shared); the reference is unchanged (content only)',
             'the triples family memoises equals(i,j) per process; pairs:<kind> checks on every pair that the answer is deterministic',
         ])
